@@ -9,6 +9,10 @@ REPO = os.environ.get("VERIF_REPO", "/repo")
 WORK = os.path.join(VERIF, ".work")
 LEAN = os.path.join(VERIF, "lean")
 BIN = os.path.join(WORK, "bin")
+SCRATCH = os.path.realpath(REPO) != "/repo"
+# checking a scratch copy (VERIF_REPO) must not overwrite the evidence / replays of the real tree
+EVID = os.path.join(WORK, "scratch-evidence") if SCRATCH else os.path.join(VERIF, "evidence")
+REPL = os.path.join(WORK, "scratch-replays") if SCRATCH else os.path.join(VERIF, "replays")
 GOENV = dict(os.environ, GOFLAGS="-mod=mod", GOPROXY="off", GOSUMDB="off", GOTOOLCHAIN="local",
              CGO_ENABLED=os.environ.get("CGO_ENABLED", "1"))
 
@@ -235,8 +239,8 @@ def op_line(trace, seq):
 
 
 def write_replay(pid, suite, run, seq, what, extra):
-    os.makedirs(os.path.join(VERIF, "replays"), exist_ok=True)
-    path = os.path.join(VERIF, "replays", f"{pid}-{suite}-seed{run['seed']}-op{seq}.trace")
+    os.makedirs(REPL, exist_ok=True)
+    path = os.path.join(REPL, f"{pid}-{suite}-seed{run['seed']}-op{seq}.trace")
     env, state, ctx = op_line(run["trace"], seq)
     with open(path, "w") as f:
         f.write(f"# property={pid} what={what}\n")
@@ -409,8 +413,8 @@ def main(argv):
         exit_code = 1
     elif broken_thms or bad_axioms or missing or grep_hits:
         # an obligation no longer checks and the search found no failing input
-        os.makedirs(os.path.join(VERIF, "replays"), exist_ok=True)
-        path = os.path.join(VERIF, "replays", f"{pid}-obligation.txt")
+        os.makedirs(REPL, exist_ok=True)
+        path = os.path.join(REPL, f"{pid}-obligation.txt")
         with open(path, "w") as f:
             f.write(f"# property={pid}: proof obligations that no longer check on the current tree\n")
             for (fn, ln, name, msg) in broken_thms:
@@ -476,8 +480,8 @@ def main(argv):
         assumptions=cfg.get("assumptions", ["SDK modules behave as modelled (validated on every operation of the run)"]),
         wall_s=round(time.time() - t0, 1), violations=n_viol,
     )
-    os.makedirs(os.path.join(VERIF, "evidence"), exist_ok=True)
-    with open(os.path.join(VERIF, "evidence", f"{pid}.json"), "w") as f:
+    os.makedirs(EVID, exist_ok=True)
+    with open(os.path.join(EVID, f"{pid}.json"), "w") as f:
         json.dump(ev, f, indent=1)
     log(f"{pid} tier={tier} obligations {discharged}/{obligations} ops {total_ops} agree {agree} accepted {accepted} "
         f"violations {n_viol} known {len(known_hits)} wall {ev['wall_s']}s")
